@@ -18,7 +18,7 @@ RULE = ("worlds as C07 but estimator and uninterrupted charging off, unequal vol
         "inconclusive; non-trivial = call with >=2 constraints binding and >=3 active sessions; distinct = history signature")
 PROBES = ["greedy_call_checked", "rr_call_checked", "uncontrolled_call_checked", "tie_inconclusive", "guard_inconclusive",
           "bisection_used", "ub_granted", "finite_level_lowered", "two_constraints_binding", "eps_probe", "order_matters",
-          "rr_blocked_session", "call_after_reconfig", "uninterrupted_call", "min_pilot_refused", "direct_schedule_call_shared_bounds", "direct_schedule_call_edited_energy", "near_tie_world", "estimator_call"]
+          "rr_blocked_session", "call_after_reconfig", "uninterrupted_call", "min_pilot_refused", "direct_schedule_call_shared_bounds", "direct_schedule_call_edited_energy", "near_tie_world", "estimator_call", "allocation_routine_called_with_a_kept_infrastructure_description"]
 FAULT_DIMENSION = ("environment fault only: the operator changes a constraint limit between two periods of the run "
                    "(ChargingNetwork.update_constraint); otherwise reached-state distribution")
 ASSUMPTIONS = ["priority keys pairwise distinct (else the call is inconclusive)",
@@ -200,6 +200,41 @@ def check(sc):
                     pre.add("C08/edited_session_bound_ignored", "t=%d: schedule() on sessions whose energy fields the caller edited (session %s: remaining "
                             "demand set to %r A*periods, live ids kept) grants it %r A" % (rec["t"], vict.session_id, cap_ap, got_v))
             ctx.post_hooks.append(direct)
+
+            def direct_core(party_, iface, rec, sched):
+                # the allocation routine itself called by a caller that keeps ONE infrastructure description for the whole site and
+                # hands it to every call (public sorting_algorithm / round_robin): the description is the caller's, it must come
+                # back as it went in, and the rates must be the ones the run's own call produced for the same state
+                r_ = sub(sc["seed"], "direct_core", rec["t"])
+                if state.get("core", 0) >= 3 or r_.random() < 0.5 or pre.viol or p.get("estimator") == "rampdown":
+                    return
+                state["core"] = state.get("core", 0) + 1
+                mine = iface.infrastructure_info()
+
+                def snap_(inf_):
+                    return {k_: (np.array(getattr(inf_, k_), dtype=float).tolist() if k_ not in ("allowable_pilots", "station_ids", "constraint_ids")
+                                 else ([np.array(a_, dtype=float).tolist() for a_ in getattr(inf_, k_)] if k_ == "allowable_pilots" else list(getattr(inf_, k_))))
+                            for k_ in ("constraint_matrix", "constraint_limits", "phases", "voltages", "min_pilot", "max_pilot", "is_continuous",
+                                       "allowable_pilots", "station_ids", "constraint_ids")}
+                before_ = snap_(mine)
+                algo = party_.inner
+                fn_ = algo.round_robin if kind == "rr" else algo.sorting_algorithm
+                outs_ = []
+                for _ in range(2):
+                    sess_ = algo.run_preprocessing(iface.active_sessions(), mine)
+                    outs_.append([float(x) for x in np.array(fn_(sess_, mine), dtype=float).reshape(len(ids), -1)[:, 0]])
+                pre.probe("allocation_routine_called_with_a_kept_infrastructure_description")
+                after_ = snap_(mine)
+                if after_ != before_:
+                    ch_ = [k_ for k_ in before_ if before_[k_] != after_[k_]]
+                    pre.add("C08/callers_infrastructure_description_changed", "t=%d: %s(sessions, infrastructure) changed the caller's InfrastructureInfo (%s): "
+                            "%s -> %s" % (rec["t"], fn_.__name__, ch_, str(before_[ch_[0]])[:120], str(after_[ch_[0]])[:120]))
+                    return
+                own_ = [float(sched.get(s_, [0.0])[0]) for s_ in ids]
+                if outs_[0] != own_ or outs_[1] != own_:
+                    pre.add("C08/direct_call_differs", "t=%d: %s(sessions, infrastructure) on the same state gives %s, then %s; the run's own call gave %s"
+                            % (rec["t"], fn_.__name__, outs_[0], outs_[1], own_))
+            ctx.post_hooks.append(direct_core)
         if kind != "greedy":
             return
 
